@@ -35,8 +35,9 @@
 (*       mult  : Seq(Seq(Nat)),      stored multiplicities                    *)
 (*       massOK : BOOLEAN            supercell and unit-cell masses follow    *)
 (*  S, Pn/Pd: supercell and primitive matrix; layout : "full"|"compact";      *)
-(*  fck : [kind : "springs"|"gen", seed]; scale : [s, t] (fc -> s fc,         *)
-(*  masses -> t masses).                                                      *)
+(*  fck : [kind : "springs"|"chiral"|"gen", seed] (spring model; spring model  *)
+(*  plus seed*[r]x, non-symmetric blocks; arbitrary integer array number     *)
+(*  seed); scale : [s, t] (fc -> s fc, masses -> t masses).                   *)
 (*                                                                            *)
 (* TLC NOTE.  TLC caches LET definitions and operator arguments only while    *)
 (* it evaluates a next-state action; in invariants and constants they are     *)
@@ -194,7 +195,23 @@ GenRows(c, seed) ==
   [i \in 1..NP(c) |-> [k \in 1..NS(c) |->
      [al \in I3 |-> [be \in I3 |-> GenEntry(seed, i, k, al, be)]]]]
 
-BaseRows(c, tms) == IF c.fck.kind = "springs" THEN SpringRows(c, tms) ELSE GenRows(c, c.fck.seed)
+BaseRows(c, tms) == IF c.fck.kind = "gen" THEN GenRows(c, c.fck.seed) ELSE SpringRows(c, tms)
+
+(* "chiral" force constants: the spring model plus, for every pair, kappa [r]x (the       *)
+(* cross-product matrix of the separation; in covariant lattice components of a pair at   *)
+(* r = n L / D it is a constant times [n]x, an integer matrix).  The blocks are then NOT   *)
+(* symmetric 3x3 matrices (the spring model's are, which would hide a transposed block    *)
+(* convention), while index-permutation symmetry ([-r]x = [r]x^T), translational          *)
+(* invariance (on-site term by the sum rule) and covariance under PROPER rotations        *)
+(* (W^T [W n]x W = det(W) [n]x) still hold.  The on-site term stays symmetric iff the      *)
+(* neighbour shells of every atom are inversion symmetric: JSeriesPermSym checks it.      *)
+Cross(n) == <<<<0, -n[3], n[2]>>, <<n[3], 0, -n[1]>>, <<-n[2], n[1], 0>>>>
+ChiralTerms(tms, kappa, natoms) ==
+  LET pt == {[a |-> t.a, b |-> t.b, t |-> t.t, r |-> t.r,
+              T |-> Materialize(MAdd(t.T, MScale(kappa, Cross(t.r))))] : t \in {t \in tms : t.r # Zero3}}
+  IN  pt \cup {[a |-> a, b |-> a, t |-> Zero3, r |-> Zero3, T |-> Materialize(OnSiteTensor(pt, a))] : a \in 1..natoms}
+TermsFor(c, tms) ==
+  IF c.fck.kind = "chiral" THEN ChiralTerms(tms, c.fck.seed, NAtoms(CrTable[c.entry])) ELSE tms
 ScaleRows(s, rows) == [i \in DOMAIN rows |-> [k \in DOMAIN rows[i] |-> MScale(s, rows[i][k])]]
 
 (* ---------------------------------------------------------------------------- *)
@@ -280,7 +297,7 @@ Load ==
 
 Choose ==
   /\ pc = "choose"
-  /\ \E c \in Cases : /\ x' = c /\ terms' = tab[c.entry].terms /\ aut' = tab[c.entry].aut
+  /\ \E c \in Cases : /\ x' = c /\ terms' = TermsFor(c, tab[c.entry].terms) /\ aut' = tab[c.entry].aut
   /\ tab' = <<>>
   /\ pc' = "prepare"
   /\ UNCHANGED <<sl, comm, def, fcrow, mass, pmap, smap, lcm, raw, herm, verdict, out>>
@@ -337,7 +354,9 @@ MakeHermitian ==
 (* ---------------------------------------------------------------------------- *)
 (* requirement (each J* is evaluated once per case, in action Judge)             *)
 (* ---------------------------------------------------------------------------- *)
-Springs == x.fck.kind = "springs"
+Springs == x.fck.kind \in {"springs", "chiral"}   \* force constants of an infinite crystal with a definition
+(* the operations under which those force constants are covariant *)
+OpsOf(A) == IF x.fck.kind = "chiral" THEN {g \in A : Det(g[1]) = 1} ELSE A
 Pairs == (1..NP(x)) \X (1..NP(x))
 Sep(k, i) == VSub(U(x, k), UP(x, i))
 Scl == 2 * lcm * x.scale.s     \* herm = Scl * (series of the unscaled force constants)
@@ -363,7 +382,16 @@ JCaseWellFormed ==
 
 (* the series used is Springs!AllTerms and the group is Crystal!Aut (the fast evaluations  *)
 (* above are only evaluation strategies)                                                  *)
-JTermsAreSpringsTerms == terms = AllTerms(Cr(x)) /\ aut = Aut(Cr(x))
+JTermsAreSpringsTerms == terms = TermsFor(x, AllTerms(Cr(x))) /\ aut = Aut(Cr(x))
+(* hypothesis of C02 on the series itself: Phi(a0, b t) = Phi(b0, a -t)^T, and the sum rule *)
+JSeriesPermSym ==
+  Springs => \A t \in terms : \E y \in terms :
+      y.a = t.b /\ y.b = t.a /\ y.r = VNeg(t.r) /\ y.T = Transpose(t.T)
+JSeriesSumRule ==
+  Springs => \A a \in 1..NAtoms(Cr(x)) : SumT({t \in terms : t.a = a}) = ZeroM
+(* vacuity guard: the chiral blocks really are non-symmetric matrices *)
+JChiralBlocksAsymmetric ==
+  (x.fck.kind = "chiral") => \E t \in terms : t.T # Transpose(t.T)
 
 (* ---- the svecs table (recorded from the real Primitive in trace mode) ---------------- *)
 (* every stored vector of pair (k,i) is an image of x_k - x_i modulo the supercell lattice *)
@@ -486,10 +514,10 @@ Covariant(ser, g) ==
           /\ \A r \in DOMAIN ser[p] :
                 MatMul(Wt, MatMul(ser[q][MatVec(W, r)], W)) = ser[p][r]
 (* the infinite crystal's series is covariant under the whole space group ...            *)
-JPointGroupDefinition == Springs => \A g \in RepsOf(aut) : Covariant(def, g)
+JPointGroupDefinition == Springs => \A g \in RepsOf(OpsOf(aut)) : Covariant(def, g)
 (* ... the implementation's under the operations that preserve the supercell lattice     *)
 (* (all of them in the short-range regime, by JEqFourierShortRange)                      *)
-JPointGroupCovariance == Springs => \A g \in RepsOf(AutSuper) : Covariant(herm, g)
+JPointGroupCovariance == Springs => \A g \in RepsOf(OpsOf(AutSuper)) : Covariant(herm, g)
 (* every rotation part is an integer matrix in primitive coordinates *)
 PrimRot(W) == LET A == MatMul(Adj(x.Pn), MatMul(W, x.Pn))
               IN [i \in I3 |-> [j \in I3 |-> A[i][j] \div Det(x.Pn)]]
@@ -530,6 +558,9 @@ Verdict(n) ==
     [] n = "Scaling" -> JScaling
     [] n = "ConformsMaps" -> JConformsMaps
     [] n = "TermsAreSpringsTerms" -> JTermsAreSpringsTerms
+    [] n = "SeriesPermSym" -> JSeriesPermSym
+    [] n = "SeriesSumRule" -> JSeriesSumRule
+    [] n = "ChiralBlocksAsymmetric" -> JChiralBlocksAsymmetric
 
 Judge ==
   /\ pc = "judge"
@@ -592,4 +623,7 @@ PrimRotationsIntegral == Holds("PrimRotationsIntegral")
 Scaling == Holds("Scaling")
 ConformsMaps == Holds("ConformsMaps")
 TermsAreSpringsTerms == Holds("TermsAreSpringsTerms")
+SeriesPermSym == Holds("SeriesPermSym")
+SeriesSumRule == Holds("SeriesSumRule")
+ChiralBlocksAsymmetric == Holds("ChiralBlocksAsymmetric")
 =============================================================================
